@@ -25,10 +25,13 @@ ASSUMPTIONS = ["root x of sample j is j itself, so the selected multiset is read
 
 
 class ClassRoot(KDDataset):
-    def __init__(self, classes, C, bulk="list"):
+    def __init__(self, classes, C, bulk="list", native_items=False, name_mod=None):
         super().__init__()
         self.classes, self.C, self.bulk = list(classes), C, bulk
-        self.class_names = [f"name{k}" for k in range(C)]
+        # native_items: per-sample labels come in the container's own scalar type (numpy integer / 0-d tensor) instead of a python int
+        self.native_items = native_items
+        # name_mod < C: several classes carry the same name (ImageNet has two "crane" and two "maillot" classes)
+        self.class_names = [f"name{k % (name_mod or C)}" for k in range(C)]
 
     def __len__(self):
         return len(self.classes)
@@ -42,7 +45,14 @@ class ClassRoot(KDDataset):
         return idx
 
     def getitem_class(self, idx, ctx=None):
-        return self.classes[int(idx)]
+        c = self.classes[int(idx)]
+        if self.native_items:
+            kind, _, dt = self.bulk.partition(":")
+            if kind == "numpy":
+                return getattr(np, dt or "int64")(c)
+            if kind == "tensor":
+                return torch.tensor(c, dtype=getattr(torch, dt or "long"))
+        return c
 
     def getall_class(self):
         # "numpy" / "tensor" / "list", or with an explicit (narrow) integer dtype: "numpy:uint8", "tensor:int16", ...
@@ -99,11 +109,11 @@ def selection(kind, spec, args, g=0):
         root_classes = [None] * n
         for pos, r in enumerate(perm):
             root_classes[r] = spec["classes"][pos]
-        root = ClassRoot(root_classes, spec["C"], spec.get("bulk", "list"))
+        root = ClassRoot(root_classes, spec["C"], spec.get("bulk", "list"), spec.get("native_items", False), spec.get("name_mod"))
         base = KDSubset(KDSubset(root, list(range(n))[::-1]), [n - 1 - r for r in perm])  # two layers composing to perm
         inv = {r: pos for pos, r in enumerate(perm)}
     else:
-        root = ClassRoot(spec["classes"], spec["C"], spec.get("bulk", "list"))
+        root = ClassRoot(spec["classes"], spec["C"], spec.get("bulk", "list"), spec.get("native_items", False), spec.get("name_mod"))
         base = root
         inv = None
     import copy as _copy
@@ -124,7 +134,7 @@ def selection(kind, spec, args, g=0):
     sel = [w.getitem_x(i) for i in range(len(w))]
     if inv is not None:
         sel = [inv[j] for j in sel]
-    cls = [w.getitem_class(i) for i in range(len(w))]
+    cls = [int(w.getitem_class(i)) for i in range(len(w))]
     if cls != [spec["classes"][j] for j in sel]:
         raise Violation(f"class-of-selected-sample-differs:{kind}", "")
     return sel
@@ -135,6 +145,8 @@ def _refusal(e):
 
 
 def run(kind, spec, args):
+    if "seed" in args and spec.get("seed_form") == "numpy":
+        args = dict(args, seed=np.int64(args["seed"]))  # a seed taken from an array of seeds
     try:
         sel = selection(kind, spec, args, 0)
     except AssertionError as e:
@@ -178,7 +190,11 @@ def check_class_filter(spec):
     args = {"valid_classes": {"valid_classes": V}, "invalid_classes": {"invalid_classes": V},
             "valid_class_names": {"valid_class_names": names}, "invalid_class_names": {"invalid_class_names": names}}[how]
     sel = run("ClassFilterWrapper", spec, args)
-    keep = (lambda c: c in V) if how.startswith("valid") else (lambda c: c not in V)
+    hit = (lambda c: c in V)
+    if how.endswith("names") and spec.get("name_mod"):
+        # a name selects every class that carries it
+        hit = (lambda c: f"name{c % spec['name_mod']}" in names)
+    keep = hit if how.startswith("valid") else (lambda c: not hit(c))
     exp = [j for j in range(n) if keep(cl[j])]
     if sel != exp:
         raise Violation(f"class-filter-selection:{how}", f"V={V} classes={cl}: got {sel} expected {exp}")
@@ -421,6 +437,11 @@ def with_layout(draw, extra, **kw):
     s["under"] = draw(st.sampled_from([None, None, 1, 2, 3]))
     if s.get("bulk") not in ("list", "numpy", "tensor"):
         s["under"] = None
+    s["native_items"] = draw(st.booleans())
+    if "seed" in s:
+        s["seed_form"] = draw(st.sampled_from(["int", "int", "numpy"]))
+    if s["C"] >= 2 and draw(st.integers(0, 3)) == 0:
+        s["name_mod"] = draw(st.integers(1, s["C"] - 1))
     return s
 
 
